@@ -76,7 +76,9 @@ func genC14(tier string, seed uint64) *simkit.Plan {
 	p.AddStep(Step{Op: "roundtrip"})
 	k := r.Range(1, 5)
 	for i := 0; i < k; i++ {
-		p.AddStep(Step{Op: "clean", Ms: r.Intn(3)}) // Ms: how many writes to add (and snapshot) before the clean; 0 = clean a folder that holds only the last snapshot
+		// Ms: how many writes to add (and snapshot) before the clean; 0 = clean a folder that holds only the last snapshot
+		// B=1: the newest snapshot's state file is cut short first (a write torn by a crash)
+		p.AddStep(Step{Op: "clean", Ms: r.Intn(3), B: r.Pick(4, 1)})
 	}
 	p.AddStep(Step{Op: "peerstore", Ms: r.Intn(1 << 20)})
 	return p
@@ -122,6 +124,26 @@ func listDir(base string) []string {
 	}
 	sort.Strings(out)
 	return out
+}
+
+// newestSnapshotState: the state file of the newest snapshot (directories are
+// named term-index-milliseconds) under a Raft data folder, "" when there is none.
+func newestSnapshotState(data string) string {
+	es, _ := os.ReadDir(filepath.Join(data, "snapshots"))
+	best, bestKey := "", [3]int64{-1, -1, -1}
+	for _, e := range es {
+		var k [3]int64
+		if n, _ := fmt.Sscanf(e.Name(), "%d-%d-%d", &k[0], &k[1], &k[2]); n != 3 || strings.HasSuffix(e.Name(), ".tmp") {
+			continue
+		}
+		if k[0] > bestKey[0] || (k[0] == bestKey[0] && (k[1] > bestKey[1] || (k[1] == bestKey[1] && k[2] > bestKey[2]))) {
+			best, bestKey = e.Name(), k
+		}
+	}
+	if best == "" {
+		return ""
+	}
+	return filepath.Join(data, "snapshots", best, "state.bin")
 }
 
 func offlinePins(cfg *raft.Config) (map[string]string, error) {
@@ -372,6 +394,22 @@ func execC14(w *world) {
 				cfgA.DataFolder = dataA + string(os.PathSeparator)
 				run.Probe("data_folder_with_trailing_separator")
 			}
+			// a torn newest snapshot: the folder still holds Raft data (older snapshots,
+			// the log) and is kept as a backup like any other, not deleted as "empty"
+			tornFile, tornRel, tornOrig := "", "", []byte(nil)
+			if s.B == 1 && !holes {
+				tornFile = newestSnapshotState(dataA)
+				if b, err := os.ReadFile(tornFile); tornFile != "" && err == nil && len(b) > 1 {
+					tornOrig = b
+					tornRel, _ = filepath.Rel(dataA, tornFile)
+					if err := os.WriteFile(tornFile, b[:len(b)/2], 0o644); err != nil {
+						panic(err)
+					}
+					run.Fault("snapshot_state_file_torn")
+				} else {
+					tornFile = ""
+				}
+			}
 			before := listDir(dirA)
 			beforeMarkers := readMarkers()
 			if err := raft.CleanupRaft(cfgA); err != nil {
@@ -454,6 +492,18 @@ func execC14(w *world) {
 				}
 				// the newest backup still yields the pre-clean pinset
 				cfg0 := mkcfg(filepath.Join(dirA, "raft.old.0"))
+				if tornFile != "" {
+					// ... once the torn file is what it was: the backup holds it, cut short
+					// as it was found, and everything else
+					moved := filepath.Join(dirA, "raft.old.0", tornRel)
+					if b, err := os.ReadFile(moved); err != nil || len(b) != len(tornOrig)/2 {
+						run.Violate("C14/backup_not_recoverable", "torn", "the newest snapshot's state file was cut short before cleaning; the backup does not hold it as it was (%v, %d bytes, expected %d)", err, len(b), len(tornOrig)/2)
+					}
+					if err := os.WriteFile(moved, tornOrig, 0o644); err != nil {
+						panic(err)
+					}
+					run.Probe("torn_snapshot_folder_backed_up")
+				}
 				got, err := offlinePins(cfg0)
 				if err != nil || !sameMap(got, expected) {
 					run.Violate("C14/backup_not_recoverable", "", "before cleaning the pinset was %s; the newest backup yields %s (err %v)", fmtState(expected), fmtState(got), err)
